@@ -1567,6 +1567,10 @@ func (ctx drawContext) drawText(textbox *bo.TextBox, offsetX fl, textOverflow st
 	var offsetY pr.Float
 
 	metrics := textbox.TextLayout.Metrics()
+	if metrics == nil {
+		// the text engine does not provide metrics : skip the decorations
+		decoration = 0
+	}
 
 	if decoration&pr.Overline != 0 {
 		thickness := metrics.UnderlineThickness
